@@ -64,6 +64,10 @@ def gen_graph(rng, n_ns=None, n_nodes=None, hostile=True, closed=True, values_ok
     uris = ["http://%s.example/%s" % (rng.choice("abcdefg"), gen.plain_text(rng, 1).lower()) + str(i) for i in range(k)]
     if (hostile and rng.random() < 0.3) or f.get("hostile_uri"):
         uris[rng.randrange(k)] += "?a=1&b=<2>"
+    if k >= 2 and rng.random() < 0.15:
+        # two namespaces whose URIs differ only by a trailing slash are two namespaces
+        a_, b_ = rng.sample(range(k), 2)
+        uris[b_] = uris[a_].rstrip("/") + "/" if not uris[a_].endswith("/") else uris[a_].rstrip("/")
     link = {frozenset((a, b)) for a in uris for b in uris if a < b and (not layered or rng.random() < 0.4)}
 
     def linked(a, b):
@@ -282,6 +286,8 @@ def serialise(rng, g, one_file=False, base_name=True, uri_rng=None, extras=True)
         extra = ["http://unused.example/%d" % rng.randint(0, 9)] if (rng.random() < 0.15 and extras) else []
         uris = list(used) + extra
         ur = uri_rng or rng
+        if ur.random() < 0.12 and extras:
+            uris.append(UA)        # a document may list the OPC UA namespace itself: one more local index for it
         ur.shuffle(uris)
         if ur.random() < 0.6:          # own namespace first, as writers usually do
             uris.sort(key=lambda x: 0 if x == grp[0] else 1)
